@@ -39,8 +39,14 @@ VarLens(f) ==
     [] f.len.s = "Empty" -> {0, 1, 7, 40}
     [] f.len.s = "Temperature" -> {3, 4}
 
+\* CP437 texts whose bytes happen to be well-formed UTF-8 (box-drawing / accented bytes followed by 80..BF), padded to the lengths
+\* the field can carry
+Utf8Look == {<<196, 180>>, <<65, 195, 164, 66>>, <<226, 130, 172>>, <<240, 159, 166, 128>>, <<83, 117, 109, 109, 101, 32, 196, 180>>}
 TextBounds(f) == {Pat(n, 64, 1) : n \in VarLens(f)} \cup {Pat(n, 255, 255) : n \in VarLens(f)}
                  \cup {Ascii(n, 7) : n \in VarLens(f)} \cup {Pat(n, 0, 0) : n \in VarLens(f) \cap {1, 2}}
+                 \cup {u \o Ascii(n - Len(u), 3) : <<u, n>> \in {<<v, m>> \in Utf8Look \X (VarLens(f) \cup {8, 12}) :
+                                                                   m >= Len(v) /\ (f.len.s # "Fixed" \/ m = f.len.n)
+                                                                   /\ (f.len.s # "Llv" \/ m <= 99) /\ (f.len.s # "Temperature" \/ m \in {3, 4})}}
 HexBounds(f)  == {Pat(n, 160, 1) : n \in VarLens(f)} \cup {Rep(0, n) : n \in VarLens(f)} \cup {Rep(255, n) : n \in VarLens(f)}
 RawBounds(f)  == {Pat(n, 3, 7) : n \in VarLens(f) \ {0}} \cup {Rep(0, n) : n \in (VarLens(f) \ {0}) \cap {1, 2, 300}}
 Utf8Bounds(f) == {Ascii(n, 3) : n \in VarLens(f)} \cup {<<226, 130, 172>>, <<240, 159, 166, 128, 65>>, <<195, 164, 0, 66>>}
